@@ -264,8 +264,22 @@ func cmdC13(args []string) error {
 					return fail(err)
 				}
 			}
+			// a companion READER over the companion stream, with the same settings, read in step with the stream under
+			// test (registered decompressors are process-wide objects too)
+			var crc *wire.ReadContext
+			if companionBuf.Len() > 0 {
+				csrc := seeksource.FromBytes(companionBuf.Bytes())
+				if _, err := csrc.Resume(nil); err == nil {
+					crc, _ = pwr.DecompressWire(wire.NewReadContext(csrc), settings)
+				}
+			}
 			idx := start
 			for {
+				if crc != nil {
+					if err := crc.ReadMessage(&pwr.SyncOp{}); err != nil {
+						crc = nil
+					}
+				}
 				// boundary: maybe WantSave, always Pop
 				if wantEvery > 0 && (idx-start)%wantEvery == 0 {
 					rc.WantSave()
